@@ -166,7 +166,7 @@ def run(ctx):
                        '254b..256b+1 for the block limit; XOF len up to 256 (quick) / 65535 (thorough); hash_to_field L in 48,64,128, count 0,1,2,5 (quick) / 0..8 (thorough); '
                        'lengths outside the grid are outside the claim',
                        'Kani lengths (msg, dst, len_in_bytes)': 'quick: xmd (3,3,7) (0,1,2) (5,0,4) (1,3,0), xof (3,3,7) (0,0,1); thorough adds (4,2,9) (8,8,16), xof (5,2,0) (2,8,16), 255 blocks served',
-                       'limit': 'ell = 256 with a 1-byte digest aborts (should_panic harness); ell = 255 returns 255 bytes (thorough)',
+                       'limit': 'Kani: ell = 256 with a 1-byte digest and 511 bytes with a 2-byte digest abort (should_panic harnesses).  "255 blocks are served" is decided by the S-euf part only (254b..256b+1 bytes for b = 1, 2): the two concrete 255-block Kani harnesses did not finish in 3600 s of CBMC symbolic execution and are not registered',
                        'hash_to_field counts': '0..2 (quick), 3 (thorough); element length 3 bytes (mock)', 'reduction blocks': 'all 2^512 / 2^384 / 2^1024 byte blocks'})
     chk.trusted += ['Kani 0.68 / CBMC 6.11']
 
